@@ -281,3 +281,14 @@ Proof.
   - intros km H. inversion H; subst. split; discriminate.
   - intros v [H|[H|[]]]; inversion H; subst; split; discriminate.
 Qed.
+
+(* no Reservoir Depth line: the repaired reader walks 3000 m (15 + 0.05 x 3000 = 165 degC); the pinned one gave 15.15 *)
+Example C05_ex_default_depth :
+  input_ok default_depth_witness /\
+  (exists T d, bht_of_input default_depth_witness = Good (T, d) /\ T == 165 /\ d == 3000) /\
+  (exists T d, bht_of_input_pinned default_depth_witness = Good (T, d) /\ T == 1515 # 100).
+Proof.
+  split.
+  - unfold input_ok, default_depth_witness, prefill, user_pos. cbn. repeat split; try lia; try lra.
+  - split; eexists; eexists; (split; [vm_compute; reflexivity|]); try split; vm_compute; reflexivity.
+Qed.
